@@ -10,11 +10,34 @@ System under test: the instruction sequences `chibicc -S` emits for tiny bodies 
                                  unbounded; every 1000th schedule re-executed and compared event by event
   oracle     (here)              brute-force linearizability of each distinct call/return history (<= 6 operations)
                                  against a sequential specification written from C11 6.5.16.2, 6.5.2.4, 6.5.3.1,
-                                 7.17.7; final object value included; unlocked RMW on the atomic object, livelock and
-                                 modified neighbour bytes are reported directly
-Signature: C16|<op family>|<lvalue form>|<deviation class>
+                                 7.17.7; final object value included; unlocked RMW on the atomic object, livelock,
+                                 modified neighbour bytes and a fault/hang of the code under test are reported directly
+
+Enumerated (every combination inside the stated bounds, no sampling):
+  types      signed/unsigned 1, 2, 4, 8 byte integers, _Bool, int *, float, double                       (TYPES)
+  lvalues    *p  g  s.m  p->m  a[i]  automatic object  member of an automatic struct                     (FORMS)
+  operations op= (+ - * / % & | ^ << >>; + - * / for floating types), pre/post ++/--, atomic_fetch_{add,sub,or,xor,and}
+             [_explicit], atomic_exchange[_explicit] (operand converted by the body / long / int expression),
+             atomic_flag_test_and_set, atomic_compare_exchange_{strong,weak} (desired value converted by the body /
+             int expression), a compare-exchange retry loop, a Treiber-stack push                        (ops_for)
+  operands   every operand POSITION of every operation - A: the expression designating the object (p of *p and p->m,
+             i of a[i]); E: the address of the expected-value object; D: the value operand (right operand of op=,
+             operand of fetch_*/exchange, desired value of compare_exchange) - filled with every operand KIND:
+             a load from thread-private memory (default), an integer constant (D), the result of a chibicc-compiled
+             helper with 1 / 5 / 7 integer parameters, of one with double+float parameters, of vp_clobber() (poisons
+             every caller-saved GP and SSE register and the flags), and an expression with two nested atomic
+             operations on a private _Atomic long.  quick: one position at a time and call5/clob/nest in all positions
+             at once on *p, clob/nest designators on p->m and a[i]; thorough: the same on five lvalue forms with
+             every kind in all positions at once, plus the full cross product (7 x 7 x 8 kinds) on *p for one
+             operation per family on int, long, int *, double                                            (operand_keys)
+  programs   1x2, 2x1, 2x2, 3x1 (3x2) threads x operations, all schedules or preemption-bounded (plan()); the second
+             compare-exchange of a 1x2 program has a stale expected value, so the failure (write-back) path runs
+             with every operand kind (vacuity guard: operand_kinds[*].schedules_with_failed_cas > 0)
+  floating   values travel through the long interface in quarters and are chosen so that every result is an exact
+             multiple of 0.25: the specification needs no rounding; compare-exchange compares representations
+Signature: C16|<op family>[/float]|<lvalue form>[;<operand positions filled with a call or nested atomic>]|<deviation class>
 """
-import json, os, re, sys, itertools
+import json, os, re, struct, sys, itertools
 
 if __name__ == "__main__":
     sys.path.insert(0, os.path.dirname(os.path.dirname(os.path.abspath(__file__))))
@@ -32,9 +55,11 @@ TYPES = [("i1", "signed char", 1, True, "int"), ("u1", "unsigned char", 1, False
          ("i2", "short", 2, True, "int"), ("u2", "unsigned short", 2, False, "int"),
          ("i4", "int", 4, True, "int"), ("u4", "unsigned int", 4, False, "int"),
          ("i8", "long", 8, True, "int"), ("u8", "unsigned long", 8, False, "int"),
-         ("b1", "_Bool", 1, False, "bool"), ("p8", "int *", 8, False, "ptr")]
+         ("b1", "_Bool", 1, False, "bool"), ("p8", "int *", 8, False, "ptr"),
+         ("f4", "float", 4, True, "flt"), ("f8", "double", 8, True, "flt")]
 TINFO = {t[0]: t for t in TYPES}
 PTR_SCALE = 4
+FLT_SCALE = 4           # floating values travel through the long interface in quarters: FROM(a) = (T)a / 4
 
 FORMS = ["deref", "global", "gmember", "pmember", "aindex"]      # *p   g   s.m   p->m   a[i]
 AUTO_FORMS = ["auto", "automember"]                              # object in the automatic storage of a parent thread
@@ -44,14 +69,21 @@ COMPOUND = {"add": "+", "sub": "-", "mul": "*", "div": "/", "mod": "%", "and": "
 FETCH = ["add", "sub", "or", "xor", "and"]
 
 
+FLT_OPS = ["add", "sub", "mul", "div", "preinc", "postinc", "predec", "postdec", "xchg", "xchg_x", "xchg_i",
+           "cas_s", "cas_w", "cas_i", "casloop"]
+
+
 def ops_for(tn):
     kind = TINFO[tn][4]
     if kind == "bool":
         return ["and", "or", "xor", "xchg", "xchg_x", "cas_s", "cas_w", "tas"]
     if kind == "ptr":
         return ["add", "sub", "preinc", "postinc", "predec", "postdec", "xchg", "xchg_x", "cas_s", "cas_w", "casloop"]
+    if kind == "flt":
+        return list(FLT_OPS)
     return (list(COMPOUND) + ["preinc", "postinc", "predec", "postdec"] + ["f" + f for f in FETCH] +
-            ["f" + f + "_x" for f in FETCH] + ["xchg", "xchg_x", "xchg_l", "cas_s", "cas_w", "casloop"])
+            ["f" + f + "_x" for f in FETCH] + ["xchg", "xchg_x", "xchg_l", "cas_s", "cas_w", "casloop"] +
+            (["xchg_i", "cas_i"] if TINFO[tn][2] == 8 else []))
 
 
 def family(op):
@@ -59,6 +91,8 @@ def family(op):
         return "compound"
     if op in ("preinc", "postinc", "predec", "postdec"):
         return "incdec"
+    if op in ("xchg_i", "cas_i"):                                 # operand of type int, converted by the operation
+        return "exchange-int-operand" if op == "xchg_i" else "cas-int-operand"
     if op.startswith("f"):
         return "fetch"
     if op.startswith("xchg") or op == "tas":
@@ -68,55 +102,175 @@ def family(op):
     return op                                                     # casloop, push
 
 
-def lvalue(tn, form):
+# ---- operand dimension -------------------------------------------------------------------------------
+# Every operation has up to three operand positions:
+#   A  the expression that designates the object (pointer p of *p and p->m, index i of a[i])
+#   E  the address of the expected-value object (compare_exchange strong/weak, CAS loop)
+#   D  the value operand (right operand of op=, operand of fetch_*/exchange, desired value of compare_exchange)
+# and every position is filled with an operand kind:
+#   priv   (default) a load from thread-private memory: the parameters p and a, the address of a local
+#   const  (D only)  an integer constant expression
+#   call1/call5/call7  result of a chibicc-compiled helper with 1/5/7 integer parameters (5: the fifth argument is a
+#          pointer to private scratch memory; 7: one argument travels on the stack)
+#   callf  result of a chibicc-compiled helper with double and float parameters (SSE argument registers)
+#   clob   result of vp_clobber() (harness/c16_rt.S): returns its argument, poisons EVERY caller-saved GP and SSE
+#          register and RFLAGS, as the psABI allows any callee to do
+#   nest   an expression with two nested atomic operations (atomic_fetch_add then atomic_fetch_sub, i.e. two inner
+#          compare-exchange loops) on a thread-private _Atomic long
+# All helpers touch only private memory, so they add no scheduling points; each wrapper returns the wrapped value
+# unchanged, so the sequential specification of the operation is the same for every kind.
+KINDS = ["call1", "call5", "call7", "callf", "clob", "nest"]
+POSITIONS = "AED"
+A_FORMS = ("deref", "pmember", "aindex")                          # forms whose designator has a sub-expression
+
+HELPERS = """static L h1(L a) { return a; }
+static L h5(L a, L b, L c, L d, L e) { return a + b + c + d - 6 + (e == 0); }
+static L h7(L a, L b, L c, L d, L e, L f, L g) { return a + b + c + d + e + f + g - 21; }
+static L hf(L a, double x, float y, double z) { return a + (L)(x + y + z) - 7; }
+L vp_clobber(L);
+"""
+
+
+def ok_parse(okey):
+    return dict(x.split("=") for x in okey.split(",") if x)
+
+
+def ok_key(ok):
+    return ",".join("%s=%s" % (pos, ok[pos]) for pos in POSITIONS if ok.get(pos, "priv") != "priv")
+
+
+def positions(op, form):
+    """operand positions that exist for (op, form)"""
+    pos = ""
+    if form in A_FORMS:
+        pos += "A"
+    if op in ("cas_s", "cas_w", "cas_i", "casloop"):
+        pos += "E"
+    if family(op) != "incdec" and op != "tas":
+        pos += "D"
+    return pos
+
+
+def kind_wrap(kind, pos, x):
+    """-> (declarations, expression of type long with the value of the long expression x)"""
+    if kind == "priv":
+        return "", x
+    if kind == "call1":
+        return "", "h1(%s)" % x
+    if kind == "call5":
+        return "L scr%s[2]; " % pos, "h5(%s, 1, 2, 3, (L)scr%s)" % (x, pos)
+    if kind == "call7":
+        return "", "h7(%s, 1, 2, 3, 4, 5, 6)" % x
+    if kind == "callf":
+        return "", "hf(%s, 1.5, 2.5f, 3.5)" % x
+    if kind == "clob":
+        return "", "vp_clobber(%s)" % x
+    if kind == "nest":
+        return "_Atomic L nv%s = 1000; " % pos, "(%s + (atomic_fetch_add(&nv%s, 3), atomic_fetch_sub(&nv%s, 3)) - 1003)" % (x, pos, pos)
+    raise core.HarnessError("unknown operand kind " + kind)
+
+
+def lvalue(tn, form, akind="priv"):
     """-> (declarations inside the body, lvalue expression)"""
-    return {"deref": ("", "(*(_Atomic T_%s *)p)" % tn),
+    if akind != "priv" and form not in A_FORMS:
+        raise core.HarnessError("form %s has no designator operand" % form)
+    d, pa = kind_wrap(akind, "A", "(L)p")
+    if akind != "priv":
+        pa = "(void *)" + pa
+    else:
+        pa = "p"
+    if form == "aindex":
+        if akind == "priv":
+            return "int i = 1; ", "ga_%s[i]" % tn
+        d, ia = kind_wrap(akind, "A", "1L")
+        return d, "ga_%s[%s]" % (tn, ia)
+    return {"deref": (d, "(*(_Atomic T_%s *)%s)" % (tn, pa)),
             "global": ("", "g_%s" % tn),
             "gmember": ("", "gs_%s.m" % tn),
-            "pmember": ("", "((struct S_%s *)p)->m" % tn),
-            "aindex": ("int i = 1; ", "ga_%s[i]" % tn),
+            "pmember": (d, "((struct S_%s *)%s)->m" % (tn, pa)),
             "auto": ("_Atomic T_%s x; vp_auto_begin(&x, sizeof x); " % tn, "x"),
             "automember": ("struct S_%s s; vp_auto_begin(&s.m, sizeof s.m); " % tn, "s.m")}[form]
 
 
-def body_text(tn, form, op):
-    """C text of one body:  long f(void *p, long a, long *e)"""
+def literal(v):
+    v = s64(v)
+    return "(%dL)" % v if v > -(1 << 63) else "(-9223372036854775807L - 1)"
+
+
+def body_name(tn, form, op, okey="", const=None):
+    n = "f_%s_%s_%s" % (op, tn, form)
+    if okey:
+        n += "__" + okey.replace("=", "").replace(",", "_")
+    if const is not None:
+        n += "_c%d" % const[0]
+    return n
+
+
+def body_text(tn, form, op, okey="", const=None):
+    """C text of one body:  long f(void *p, long a, long *e).  okey: operand kinds of the positions that are not
+    'priv' ("A=call5,D=nest"); const = (index, value) for D=const."""
     kind = TINFO[tn][4]
     T = "T_%s" % tn
-    decl, lv = lvalue(tn, form)
-    rhs = "a" if kind == "ptr" else "(%s)a" % T
+    ok = ok_parse(okey)
+    for pos in ok:
+        if pos not in positions(op, form):
+            raise core.HarnessError("%s/%s has no operand position %s" % (op, form, pos))
+    decl, lv = lvalue(tn, form, ok.get("A", "priv"))
+    dkind = ok.get("D", "priv")
+    if dkind == "const":
+        aexpr = literal(const[1])
+    else:
+        d, aexpr = kind_wrap(dkind, "D", "a")
+        decl += d
+    conv = "FROM(%s)" % aexpr                                      # the operand converted to T by the body
+    rhs = aexpr if kind == "ptr" else conv                         # pointer +/- integer
     pre = ""
+
+    def eaddr(var):
+        d, x = kind_wrap(ok.get("E", "priv"), "E", "(L)&" + var)
+        return d, ("&" + var if "E" not in ok else "(%s *)%s" % (T, x))
     if op in COMPOUND:
-        expr = "(L)(%s %s= %s)" % (lv, COMPOUND[op], rhs)
+        expr = "TO(%s %s= %s)" % (lv, COMPOUND[op], rhs)
     elif op in ("preinc", "predec"):
-        expr = "(L)(%s%s)" % ("++" if op == "preinc" else "--", lv)
+        expr = "TO(%s%s)" % ("++" if op == "preinc" else "--", lv)
     elif op in ("postinc", "postdec"):
-        expr = "(L)(%s%s)" % (lv, "++" if op == "postinc" else "--")
+        expr = "TO(%s%s)" % (lv, "++" if op == "postinc" else "--")
+    elif op in ("xchg", "xchg_x", "xchg_l", "xchg_i"):
+        if op == "xchg":
+            expr = "TO(atomic_exchange(&%s, %s))" % (lv, conv)
+        elif op == "xchg_l":
+            expr = "TO(atomic_exchange(&%s, %s))" % (lv, aexpr)
+        elif op == "xchg_i":
+            expr = "TO(atomic_exchange(&%s, (int)%s + 0))" % (lv, aexpr)
+        else:
+            expr = "TO(atomic_exchange_explicit(&%s, %s, memory_order_seq_cst))" % (lv, conv)
+    elif op == "tas":
+        expr = "TO(atomic_flag_test_and_set(&%s))" % lv
+    elif op in ("cas_s", "cas_w", "cas_i"):
+        d, ea = eaddr("xx")
+        pre = "%s xx = FROM(*e); %sL rr = atomic_compare_exchange_%s(&%s, %s, %s); *e = TO(xx); " % (
+            T, d, "weak" if op == "cas_w" else "strong", lv, ea, "(int)%s + 0" % aexpr if op == "cas_i" else conv)
+        expr = "rr"
+    elif op == "casloop":
+        # the initial read is a separate expression: it always uses the plain designator
+        d, ea = eaddr("old")
+        lv0 = lv if "A" not in ok else (lvalue(tn, form)[1] if form != "aindex" else "ga_%s[1]" % tn)
+        if dkind == "priv":
+            pre = "%s old = %s; %s new; %sdo { new = old + %s; } while (!atomic_compare_exchange_weak(&%s, %s, new)); " % (
+                T, lv0, T, d, rhs, lv, ea)
+        else:                                                      # the desired value is computed inside the operand
+            pre = "%s old = %s; %s new; %sdo { } while (!atomic_compare_exchange_weak(&%s, %s, (new = old + %s))); " % (
+                T, lv0, T, d, lv, ea, rhs)
+        expr = "TO(new)"
     elif op.startswith("f"):
         f = op[1:].split("_")[0]
         if op.endswith("_x"):
-            expr = "(L)atomic_fetch_%s_explicit(&%s, %s, memory_order_seq_cst)" % (f, lv, rhs)
+            expr = "TO(atomic_fetch_%s_explicit(&%s, %s, memory_order_seq_cst))" % (f, lv, rhs)
         else:
-            expr = "(L)atomic_fetch_%s(&%s, %s)" % (f, lv, rhs)
-    elif op == "xchg":
-        expr = "(L)atomic_exchange(&%s, (%s)a)" % (lv, T)
-    elif op == "xchg_l":
-        expr = "(L)atomic_exchange(&%s, a)" % lv
-    elif op == "xchg_x":
-        expr = "(L)atomic_exchange_explicit(&%s, (%s)a, memory_order_seq_cst)" % (lv, T)
-    elif op == "tas":
-        expr = "(L)atomic_flag_test_and_set(&%s)" % lv
-    elif op in ("cas_s", "cas_w"):
-        pre = "%s xx = (%s)*e; L rr = atomic_compare_exchange_%s(&%s, &xx, (%s)a); *e = (L)xx; " % (
-            T, T, "strong" if op == "cas_s" else "weak", lv, T)
-        expr = "rr"
-    elif op == "casloop":
-        pre = "%s old = %s; %s new; do { new = old + %s; } while (!atomic_compare_exchange_weak(&%s, &old, new)); " % (
-            T, lv, T, rhs, lv)
-        expr = "(L)new"
+            expr = "TO(atomic_fetch_%s(&%s, %s))" % (f, lv, rhs)
     else:
         raise core.HarnessError("unknown op " + op)
-    name = "f_%s_%s_%s" % (op, tn, form)
+    name = body_name(tn, form, op, okey, const)
     if form in AUTO_FORMS:
         return name, "L %s(void *p, L a, L *e) { %s%sL r = %s; vp_auto_end(r, *e); return r; }\n" % (name, decl, pre, expr)
     return name, "L %s(void *p, L a, L *e) { %s%sreturn %s; }\n" % (name, decl, pre, expr)
@@ -167,27 +321,76 @@ L info_p8_treiber(void *arena, L what) {
 """
 
 
-def unit_source(tn, forms=None, ops=None, treiber=None, exclude=()):
-    """One translation unit per type.  -> (text, [op names], [(info name, has_fin)])"""
+def conv_macros(tn):
+    kind = TINFO[tn][4]
+    if kind == "flt":
+        return "#define FROM(x) ((T_%s)(x) / %d)\n#define TO(x) ((L)((x) * %d))\n" % (tn, FLT_SCALE, FLT_SCALE)
+    return "#define FROM(x) ((T_%s)(x))\n#define TO(x) ((L)(x))\n" % tn
+
+
+def spec_of(o):
+    return (o["form"], o["op"], o["ok"], tuple(o["const"]) if o["const"] else None)
+
+
+def specs_of_programs(progs):
+    """{type: ordered list of body specs the programs need}"""
+    res, seen = {}, set()
+    for p in progs:
+        for th in p["threads"]:
+            for o in th:
+                if o["form"] == "treiber" or (p["type"], o["fn"]) in seen:
+                    continue
+                seen.add((p["type"], o["fn"]))
+                res.setdefault(p["type"], []).append(spec_of(o))
+    return res
+
+
+UNIT_BODIES = 400
+
+
+def make_units(progs, exclude=()):
+    """-> ({unit key: (src, names, infos)}, {unit key: (type, specs, chunk)})"""
+    units, uspecs = {}, {}
+    for tn, specs in specs_of_programs(progs).items():
+        for c in range(0, max(1, len(specs)), UNIT_BODIES):
+            key = "%s_%d" % (tn, c // UNIT_BODIES)
+            uspecs[key] = (tn, specs[c:c + UNIT_BODIES], c // UNIT_BODIES)
+            units[key] = unit_source(tn, specs[c:c + UNIT_BODIES], exclude=exclude, chunk=c // UNIT_BODIES)
+    if "p8_0" not in units:
+        uspecs["p8_0"] = ("p8", [], 0)
+        units["p8_0"] = unit_source("p8", [], exclude=exclude)
+    return units, uspecs
+
+
+def default_specs(tn, forms=None, ops=None):
     forms = FORMS + AUTO_FORMS if forms is None else forms
     ops = ops_for(tn) if ops is None else ops
+    return [(form, op, "", None) for form in forms for op in ops]
+
+
+def unit_source(tn, specs=None, treiber=None, exclude=(), chunk=0):
+    """One translation unit (several per type: chunk 0 defines the global objects and the info functions, the others
+    declare them).  specs: [(form, op, operand key, const)] -> (text, [body names], [(info name, has_fin)])"""
+    specs = default_specs(tn) if specs is None else specs
     T = "T_%s" % tn
-    out = [PRELUDE, "typedef %s %s;\n" % (TINFO[tn][1], T),
+    ext = "extern " if chunk else ""
+    out = [PRELUDE, "typedef %s %s;\n" % (TINFO[tn][1], T), conv_macros(tn), HELPERS,
            "struct S_%s { char pad; _Atomic %s m; char tail; };\n" % (tn, T),
-           "_Atomic %s g_%s;\nstruct S_%s gs_%s;\n_Atomic %s ga_%s[3];\n" % (T, tn, tn, tn, T, tn)]
-    opnames, infos = [], []
-    for form in forms:
-        if form not in AUTO_FORMS:
+           "%s_Atomic %s g_%s;\n%sstruct S_%s gs_%s;\n%s_Atomic %s ga_%s[3];\n" % (ext, T, tn, ext, tn, tn, ext, T, tn)]
+    opnames, infos, seen = [], [], set()
+    for form in FORMS:
+        if chunk == 0:
             n, t = info_text(tn, form)
             out.append(t)
             infos.append((n, 0))
-        for op in ops:
-            n, t = body_text(tn, form, op)
-            if n in exclude:
-                continue
-            out.append(t)
-            opnames.append(n)
-    if (treiber if treiber is not None else tn == "p8") and "f_push_p8_treiber" not in exclude:
+    for form, op, okey, const in specs:
+        n, t = body_text(tn, form, op, okey, const)
+        if n in exclude or n in seen:
+            continue
+        seen.add(n)
+        out.append(t)
+        opnames.append(n)
+    if (treiber if treiber is not None else (tn == "p8" and chunk == 0)) and "f_push_p8_treiber" not in exclude:
         out.append(TREIBER)
         opnames.append("f_push_p8_treiber")
         infos.append(("info_p8_treiber", 1))
@@ -520,7 +723,9 @@ def selftest_programs():
             progs.append({"id": "selftest/%s/%s" % (fn, cfg), "type": "i4", "form": "deref", "op": "add", "cfg": cfg,
                           "variant": 0, "bound": -1, "obj": "info_i4_deref", "mode": 0, "init": 10, "partner": None,
                           "selftest": fn,
-                          "threads": [[{"op": "add", "fn": fn, "arg": args[t][i], "exp": 0} for i in range(k)] for t in range(n)]})
+                          "ok": "",
+                          "threads": [[{"op": "add", "fn": fn, "arg": args[t][i], "exp": 0, "form": "deref", "ok": "", "const": None}
+                                       for i in range(k)] for t in range(n)]})
     return progs
 
 
@@ -590,10 +795,20 @@ class CompileFailure(Exception):
 # =====================================================================================================
 # 4. sequential specification + linearizability
 # =====================================================================================================
+def f32_exact(v):
+    return struct.unpack("<f", struct.pack("<f", v))[0] == v
+
+
 def wrap(tn, v):
+    """normalise a value of type T (the model's state domain: Python int, or float for the floating types)"""
     _, _, size, signed, kind = TINFO[tn]
     if kind == "bool":
         return 1 if v else 0
+    if kind == "flt":
+        v = float(v)
+        if v != v or v in (float("inf"), float("-inf")) or (size == 4 and not f32_exact(v)) or (v * FLT_SCALE) != int(v * FLT_SCALE):
+            raise core.HarnessError("floating value %r of a generated program is not exact in %s quarters" % (v, tn))
+        return v
     bits = 8 * size
     v &= (1 << bits) - 1
     if signed and v >> (bits - 1):
@@ -601,13 +816,32 @@ def wrap(tn, v):
     return v
 
 
+def from_long(tn, v):
+    """FROM(v): the value of type T a body makes of the long v"""
+    if TINFO[tn][4] == "flt":
+        return wrap(tn, s64(v) / float(FLT_SCALE))
+    return wrap(tn, v)
+
+
+def from_int(tn, v):
+    """the value of type T that the conversion of (int)v gives"""
+    v = wrap("i4", v)
+    return wrap(tn, float(v) if TINFO[tn][4] == "flt" else v)
+
+
 def raw(tn, v):
-    return v & ((1 << (8 * TINFO[tn][2])) - 1)
+    """object representation of the T value v as an unsigned integer"""
+    size = TINFO[tn][2]
+    if TINFO[tn][4] == "flt":
+        return int.from_bytes(struct.pack("<f" if size == 4 else "<d", v), "little")
+    return v & ((1 << (8 * size)) - 1)
 
 
 def as_long(tn, v):
-    """value of (long)v for a v of type T, as a Python int in signed-64 range"""
+    """value of TO(v) for a v of type T, as a Python int in signed-64 range"""
     v = wrap(tn, v)
+    if TINFO[tn][4] == "flt":
+        return int(v * FLT_SCALE)
     if v >= 1 << 63:
         v -= 1 << 64
     return v
@@ -619,10 +853,12 @@ def cdiv(a, b):
 
 
 def binop(tn, op, old, a):
+    """old op a, both of type T already (for pointers a is the integer operand)"""
     kind = TINFO[tn][4]
     if kind == "ptr":
         return wrap(tn, old + PTR_SCALE * a if op == "add" else old - PTR_SCALE * a)
-    a = wrap(tn, a)                                  # the bodies convert the operand to T first
+    if kind == "flt":
+        return wrap(tn, {"add": old + a, "sub": old - a, "mul": old * a, "div": old / a if op == "div" else 0.0}[op])
     if op == "add":
         r = old + a
     elif op == "sub":
@@ -646,36 +882,44 @@ def binop(tn, op, old, a):
     return wrap(tn, r)
 
 
+def operand(tn, a):
+    """the right operand as the bodies deliver it: FROM(a), except pointer +/- integer"""
+    return s64(a) if TINFO[tn][4] == "ptr" else from_long(tn, a)
+
+
 def apply_op(tn, op, state, a, exp, variant="c11"):
     """Sequential specification.  -> list of possible (new state, return value as long, expected-after as long).
     variant 'fetch-returns-new' models the known header defect so that it can be told apart from a genuine
     atomicity failure."""
     if op == "push":
         return [(state + (a,), 0, exp)]
+    one = 1.0 if TINFO[tn][4] == "flt" else 1
     if op in COMPOUND:
-        n = binop(tn, op, state, a)
+        n = binop(tn, op, state, operand(tn, a))
         return [(n, as_long(tn, n), exp)]
     if op in ("preinc", "predec", "postinc", "postdec"):
-        n = binop(tn, "add" if op.endswith("inc") else "sub", state, 1)
+        n = binop(tn, "add" if op.endswith("inc") else "sub", state, one)
         return [(n, as_long(tn, n if op.startswith("pre") else state), exp)]
     if op == "casloop":
-        n = binop(tn, "add", state, a)
+        n = binop(tn, "add", state, operand(tn, a))
         return [(n, as_long(tn, n), exp)]
-    if op.startswith("f"):
-        n = binop(tn, op[1:].split("_")[0], state, a)
-        return [(n, as_long(tn, n if variant == "fetch-returns-new" else state), exp)]
     if op in ("xchg", "xchg_x", "xchg_l"):
-        return [(wrap(tn, a), as_long(tn, state), exp)]
+        return [(from_long(tn, a), as_long(tn, state), exp)]
+    if op == "xchg_i":
+        return [(from_int(tn, a), as_long(tn, state), exp)]
     if op == "tas":
         return [(1, as_long(tn, state), exp)]
-    if op in ("cas_s", "cas_w"):
-        x = wrap(tn, exp)
-        if state == x:
-            res = [(wrap(tn, a), 1, as_long(tn, x))]
+    if op in ("cas_s", "cas_w", "cas_i"):
+        x = from_long(tn, exp)
+        if raw(tn, state) == raw(tn, x):                       # C11 7.17.7.4: compared as by memcmp
+            res = [(from_int(tn, a) if op == "cas_i" else from_long(tn, a), 1, as_long(tn, x))]
             if op == "cas_w":
                 res.append((state, 0, as_long(tn, x)))          # C11 7.17.7.4p4: weak may fail spuriously
             return res
         return [(state, 0, as_long(tn, state))]
+    if op.startswith("f"):
+        n = binop(tn, op[1:].split("_")[0], state, operand(tn, a))
+        return [(n, as_long(tn, n if variant == "fetch-returns-new" else state), exp)]
     raise core.HarnessError("no specification for " + op)
 
 
@@ -717,7 +961,7 @@ def linearizable(tn, prog, events, final, variant="c11", retmask=None):
             return False
     before = {a: [b for b in order if ops[b]["ret"] < ops[a]["call"]] for a in order}
     treiber = prog["obj"].endswith("treiber")
-    init = () if treiber else wrap(tn, prog["init"])
+    init = () if treiber else from_long(tn, prog["init"])
 
     def same(x, y):
         return x == y if retmask is None else (x & retmask) == (y & retmask)
@@ -747,6 +991,9 @@ def judge(prog, htext):
     tn = prog["type"]
     if htext == "LIVELOCK":
         return "livelock"
+    if htext.startswith("CRASH-"):                      # fault or hang of the code under test (see c16_rt.c)
+        return {"CRASH-SEGV": "crash-sigsegv", "CRASH-BUS": "crash-sigbus", "CRASH-ILL": "crash-sigill",
+                "CRASH-FPE": "crash-sigfpe", "CRASH-HANG": "hang-without-scheduling-point"}.get(htext, "crash")
     events, final, nb, unl = parse_history(htext)
     if unl and unl != "-":
         return "unlocked-%s-on-atomic-object" % re.sub(r"\d+$", "", unl)
@@ -792,6 +1039,41 @@ def values(tn, op, variant):
         if op in ("xchg", "xchg_x"):
             return base, [[base + 8, base + 40], [base + 16, base + 48], [base + 24, base + 56]], z
         return base, [[1, 8], [2, 16], [4, 32]], z
+    if op == "xchg_i":
+        # operand of type int (negative values included): C11 7.17.7.3 converts it to the object's type
+        if variant != 0:
+            return None
+        return (-FLT_SCALE if kind == "flt" else -1), [[1, -5], [-3, 6], [2, -7]], z
+    if op == "cas_i":
+        if variant != 0:
+            return None
+        q = FLT_SCALE if kind == "flt" else 1
+        return 5 * q, [[-10, 20], [-11, 21], [-12, 22]], [[5 * q, -11 * q], [5 * q, -12 * q], [5 * q, -10 * q]]
+    if kind == "flt":
+        # all values in quarters (FLT_SCALE); every intermediate result is a small multiple of 0.25: exact in float
+        if op in ("add", "sub", "casloop", "preinc", "postinc", "predec", "postdec"):
+            down = op in ("sub", "predec", "postdec")
+            if variant == 2:
+                return None
+            return [42, 13 if down else -13][variant], [[1, 8], [2, 16], [4, 32]], z
+        if op in ("mul", "div"):
+            if variant == 2:
+                return None
+            init = 6 if op == "mul" else 1800       # 450.0 = 2 * 3^2 * 5^2: every quotient below is a multiple of 0.25
+            return (init if variant == 0 else -init), [[8, 4], [12, 8], [20, 4]], z
+        if op in ("xchg", "xchg_x"):
+            if variant == 0:
+                return 7, [[1, 4], [2, 5], [3, 6]], z
+            if variant == 1:
+                return -1, [[1, -5], [-3, 6], [2, -7]], z
+            return None
+        if op in ("cas_s", "cas_w"):
+            if variant == 0:
+                return 5, [[10, 20], [11, 21], [12, 22]], [[5, 11], [5, 12], [5, 10]]
+            if variant == 1:
+                return -1, [[-2, -10], [-3, -11], [-4, -12]], [[-1, -3], [-1, -4], [-1, -2]]
+            return None
+        raise core.HarnessError("no values for %s %s" % (tn, op))
     if op in ("add", "sub", "fadd", "fsub", "fadd_x", "fsub_x", "casloop", "preinc", "postinc", "predec", "postdec"):
         down = op in ("sub", "fsub", "fsub_x", "predec", "postdec")
         if signed:
@@ -877,13 +1159,15 @@ def values(tn, op, variant):
 CONFIGS = {"2x1": (2, 1), "2x2": (2, 2), "3x1": (3, 1), "1x2": (1, 2), "3x2": (3, 2)}
 
 
-def make_program(tn, form, op, cfg, variant, bound, partner=None):
-    """partner: op name executed by the threads other than thread 0 (mixed programs); default homogeneous."""
+def make_program(tn, form, op, cfg, variant, bound, partner=None, okey=""):
+    """partner: op name executed by the threads other than thread 0 (mixed programs); default homogeneous.
+    okey: operand kinds ("A=call5,D=nest"), the same in every thread."""
     nthreads, nops = CONFIGS[cfg]
     vals = values(tn, op, variant)
     if vals is None:
         return None
     init, args, exps = vals
+    isconst = ok_parse(okey).get("D") == "const"
     threads = []
     for t in range(nthreads):
         top = op if (partner is None or t == 0) else partner
@@ -895,13 +1179,51 @@ def make_program(tn, form, op, cfg, variant, bound, partner=None):
         tform = form
         if form in AUTO_FORMS and t != 0:
             tform = "deref"
-        threads.append([{"op": top, "fn": "f_%s_%s_%s" % (top, tn, tform), "arg": pargs[t][i], "exp": pexps[t][i]}
-                        for i in range(nops)])
-    return {"id": "%s/%s/%s/%s/v%d/b%s%s" % (op, tn, form, cfg, variant, "inf" if bound < 0 else bound,
-                                              "/vs-" + partner if partner else ""),
-            "type": tn, "form": form, "op": op, "cfg": cfg, "variant": variant, "bound": bound,
+        th = []
+        for i in range(nops):
+            const = None
+            arg = pargs[t][i]
+            if isconst:                                     # three constants per operation, dealt round robin
+                ci = (t + i) % 3
+                arg = pargs[ci][0]
+                const = [ci, arg]
+            th.append({"op": top, "fn": body_name(tn, tform, top, okey, const), "arg": arg, "exp": pexps[t][i],
+                       "form": tform, "ok": okey, "const": const})
+        threads.append(th)
+    return {"id": "%s/%s/%s/%s/v%d/b%s%s%s" % (op, tn, form, cfg, variant, "inf" if bound < 0 else bound,
+                                                "/vs-" + partner if partner else "", "/" + okey if okey else ""),
+            "type": tn, "form": form, "op": op, "cfg": cfg, "variant": variant, "bound": bound, "ok": okey,
             "obj": "info_%s_%s" % (tn, "deref" if form in AUTO_FORMS else form), "mode": 1 if form in AUTO_FORMS else 0,
             "init": init, "threads": threads, "partner": partner}
+
+
+def operand_keys(tn, op, form, tier):
+    """The operand-kind combinations explored for (type, op, form), default excluded.
+    quick:    deref: every position x every kind, D=const, and call5/clob/nest in all positions at once;
+              p->m and a[i]: designator given by clob and nest
+    thorough: every form: every position x every kind, D=const, every kind in all positions at once;
+              deref on int/long/pointer/double for one operation per family: the full cross product"""
+    pos = positions(op, form)
+    keys = []
+    quick = tier == "quick"
+    if quick and form != "deref":
+        return ["A=" + k for k in ("clob", "nest")] if form in ("pmember", "aindex") else []
+    for q in pos:
+        for k in KINDS + (["const"] if q == "D" else []):
+            keys.append("%s=%s" % (q, k))
+    if len(pos) > 1:
+        for k in (("call5", "clob", "nest") if quick else KINDS):
+            keys.append(",".join("%s=%s" % (q, k) for q in pos))
+    if not quick and form == "deref" and tn in CROSS_TYPES and op in CROSS_OPS:
+        for combo in itertools.product(*[["priv"] + KINDS + (["const"] if q == "D" else []) for q in pos]):
+            k = ok_key(dict(zip(pos, combo)))
+            if k and k not in keys:
+                keys.append(k)
+    return keys
+
+
+CROSS_TYPES = ("i4", "i8", "p8", "f8")
+CROSS_OPS = ("add", "fadd", "xchg", "cas_s", "cas_w", "casloop")
 
 
 def treiber_program(cfg, bound):
@@ -909,7 +1231,9 @@ def treiber_program(cfg, bound):
     ids = [[1, 4], [2, 5], [3, 6]]
     return {"id": "push/p8/treiber/%s/v0/b%s" % (cfg, "inf" if bound < 0 else bound), "type": "p8", "form": "treiber",
             "op": "push", "cfg": cfg, "variant": 0, "bound": bound, "obj": "info_p8_treiber", "mode": 0, "init": 0,
-            "threads": [[{"op": "push", "fn": "f_push_p8_treiber", "arg": ids[t][i], "exp": 0} for i in range(nops)]
+            "ok": "",
+            "threads": [[{"op": "push", "fn": "f_push_p8_treiber", "arg": ids[t][i], "exp": 0, "form": "treiber", "ok": "",
+                          "const": None} for i in range(nops)]
                         for t in range(nthreads)], "partner": None}
 
 
@@ -919,7 +1243,8 @@ def s64(v):
 
 
 def program_line(p, opidx, objidx, schedule=None, mode="S", pid=None):
-    w = ["P", pid or p["id"], str(objidx[p["obj"]]), str(s64(p["init"])), str(p["mode"]), str(p["bound"]), str(len(p["threads"]))]
+    init = p["init"] if p["form"] == "treiber" else raw(p["type"], from_long(p["type"], p["init"]))
+    w = ["P", pid or p["id"], str(objidx[p["obj"]]), str(s64(init)), str(p["mode"]), str(p["bound"]), str(len(p["threads"]))]
     for th in p["threads"]:
         w.append(str(len(th)))
         for o in th:
@@ -954,6 +1279,29 @@ def plan(tier):
                         p = make_program(tn, form, op, cfg, v, b)
                         if p:
                             progs.append(p)
+    # operand dimension: every operand position filled with every operand kind (see KINDS); values of variant 0,
+    # for the compare-exchange families also variant 1 in the thorough tier.  The 1x2 programs run sequentially, so
+    # the second compare-exchange of a thread is certain to fail (stale expected value) and to take the write-back path.
+    for tn in types:
+        for form in FORMS + AUTO_FORMS if not quick else FORMS:
+            if not quick and form in ("gmember", "automember"):
+                continue                                  # designators without operand: global and auto stand for them
+            for op in ops_for(tn):
+                for okey in operand_keys(tn, op, form, tier):
+                    single = okey.count("=") == 1 or len(set(ok_parse(okey).values())) == 1
+                    if quick:
+                        cfgs = [("1x2", -1), ("2x1", -1), ("2x2", 2), ("3x1", 2)]
+                    elif single:
+                        cfgs = [("1x2", -1), ("2x1", -1), ("2x2", -1), ("3x1", 3)]
+                    else:
+                        cfgs = [("1x2", -1), ("2x1", -1), ("2x2", 2)]
+                    for v in (0, 1) if (not quick and single and "E" in positions(op, form)) else (0,):
+                        for cfg, b in cfgs:
+                            if form in AUTO_FORMS and CONFIGS[cfg][1] > 1:
+                                continue
+                            p = make_program(tn, form, op, cfg, v, b, okey=okey)
+                            if p:
+                                progs.append(p)
     for tn in ("i1", "i4", "u8") if quick else [t for t in types if TINFO[t][4] == "int"]:
         for form in ("deref", "pmember") if quick else FORMS:
             for a, b in MIXED:
@@ -980,6 +1328,27 @@ def _run_batch(args):
     if isinstance(out, bytes):
         out, err = out.decode("utf-8", "replace"), err.decode("utf-8", "replace")
     return st, out, err
+
+
+def run_programs(binary, lines, ids, timeout):
+    """Run program lines; a process that reports a crash of the code under test (exit 4, 'CRASHED <id>') is replaced
+    by a new one for the programs after the crashed one.  -> (status, out, err, number of crashes)"""
+    import time
+    t_end = timeout if timeout > 1e9 else time.time() + timeout     # absolute deadline (epoch seconds) or seconds from now
+    outs, errs, crashes, pos = [], [], 0, 0
+    st = 0
+    while pos < len(lines):
+        st, out, err = _run_batch((binary, lines[pos:], int(max(1, t_end - time.time()))))
+        outs.append(out if isinstance(out, str) else "")
+        errs.append(err if isinstance(err, str) else "")
+        m = re.findall(r"^CRASHED (\S+)$", outs[-1], re.M)
+        if st == 4 and m and m[-1] in ids[pos:]:
+            crashes += 1
+            pos += ids[pos:].index(m[-1]) + 1
+            st = 0
+            continue
+        break
+    return st, "".join(outs), "".join(errs), crashes
 
 
 def parse_output(out):
@@ -1010,10 +1379,11 @@ def parse_output(out):
 def _explore_batch(args):
     """Worker: run one batch of programs and judge every distinct history.  Returns a summary (picklable)."""
     binary, progs, opidx, objidx, timeout = args
-    st, out, err = _run_batch((binary, [program_line(p, opidx, objidx) for p in progs], timeout))
+    st, out, err, crashes = run_programs(binary, [program_line(p, opidx, objidx) for p in progs], [p["id"] for p in progs], timeout)
     summ = {"status": st, "error": None, "timed_out": st == "timeout" or "\nTIMEOUT " in out, "done": [],
             "schedules": 0, "decisions": 0, "validated": 0, "distinct": 0, "by_pre": {}, "by_cfg": {}, "cas_failed": 0,
-            "livelocks": 0, "bad": {}, "nbad": {}, "samples": [], "selftest": {}}
+            "livelocks": 0, "bad": {}, "nbad": {}, "samples": [], "selftest": {}, "crashes": crashes, "by_ok": {},
+            "cas_failed_by_ok": {}}
     if st != "timeout" and (st != 0 or "HARNESS-ERROR" in out):
         m = re.search(r"HARNESS-ERROR.*", out)
         summ["error"] = "explorer failed (status %s): %s %s" % (st, m.group(0) if m else "", err[-300:])
@@ -1038,9 +1408,16 @@ def _explore_batch(args):
             k, v = kv.split(":")
             summ["by_pre"][int(k)] = summ["by_pre"].get(int(k), 0) + int(v)
         summ["distinct"] += len(r["hist"])
+        oks = (p["ok"] or "plain").split(",")
+        for k in oks:
+            c = summ["by_ok"].setdefault(k, [0, 0, 0])
+            c[0] += 1
+            c[1] += n
         for h in r["hist"]:
             if p["op"].startswith("cas") and re.search(r"r\d\.\d=0:", h[4]):
                 summ["cas_failed"] += h[0]
+                for k in oks:
+                    summ["by_ok"][k][2] += h[0]
             dev = judge(p, h[4])
             if dev:
                 sig = sig_of(p, dev)
@@ -1058,9 +1435,29 @@ def _explore_batch(args):
     # determinism proof for every violating history: its witness schedule is replayed in a fresh process, twice,
     # and must give the identical event trace (also identical to the one hashed during the search)
     if verify:
-        lines = [program_line(p, opidx, objidx, h[3], "V", "%s#%d" % (p["id"], k)) for k, (p, h) in enumerate(verify)]
-        st2, out2, err2 = _run_batch((binary, lines, 600))
-        res2 = parse_output(out2) if st2 == 0 else {}
+        # a schedule that ends in a crash of the code under test ends its process: one process per run, two runs
+        # (at most 20 crashing schedules per batch are replayed)
+        res2, st2, out2, keep, ncrash = {}, 0, "", [], 0
+        for p, h in verify:
+            if h[4].startswith("CRASH-"):
+                ncrash += 1
+                if ncrash > 20:
+                    continue
+            keep.append((p, h))
+        verify = keep
+        for k, (p, h) in enumerate(verify):
+            if h[4].startswith("CRASH-"):
+                runs = [_run_batch((binary, [program_line(p, opidx, objidx, h[3], "S", "%s#%d" % (p["id"], k))], 120)) for _ in (0, 1)]
+                if runs[0][0] == 4 and runs[1][0] == 4 and runs[0][1] == runs[1][1]:
+                    res2.update(parse_output(runs[0][1]))
+                else:
+                    st2, out2 = runs[0][0], runs[0][1]
+        lines = [program_line(p, opidx, objidx, h[3], "V", "%s#%d" % (p["id"], k)) for k, (p, h) in enumerate(verify)
+                 if not h[4].startswith("CRASH-")]
+        if lines:
+            st2, out2, err2 = _run_batch((binary, lines, 600))
+            if st2 == 0:
+                res2.update(parse_output(out2))
         for k, (p, h) in enumerate(verify):
             r2 = res2.get("%s#%d" % (p["id"], k))
             if not r2 or not r2["hist"] or r2["hist"][0][2] != h[2] or r2["hist"][0][4] != h[4]:
@@ -1082,7 +1479,9 @@ def explore(binary, progs, opidx, objidx, nbatches, timeout):
     batches = [[] for _ in range(nbatches)]
     for j, i in enumerate(order):
         batches[j % nbatches].append(progs[i])
-    return core.pmap(_explore_batch, [(binary, b, opidx, objidx, timeout) for b in batches if b])
+    import time
+    t_end = time.time() + timeout               # one deadline for all batches, whenever a worker gets to them
+    return core.pmap(_explore_batch, [(binary, b, opidx, objidx, t_end) for b in batches if b])
 
 
 REPLAY_SH = """python3 "$VERIF/checks/c16.py" --replay case.json"""
@@ -1101,17 +1500,19 @@ def single_case_binary(chibicc, include, wd, prog):
         src = PRELUDE + TREIBER
         opnames, infos = ["f_push_p8_treiber"], [("info_p8_treiber", 1)]
     else:
-        forms = sorted({o["fn"].rsplit("_", 1)[1] for th in prog["threads"] for o in th} |
-                       ({"deref"} if prog["mode"] == 1 else set()))
-        ops = sorted({o["op"] for th in prog["threads"] for o in th})
-        src, opnames, infos = unit_source(tn, forms=[f for f in FORMS + AUTO_FORMS if f in forms], ops=ops, treiber=False)
+        specs = specs_of_programs([prog])[tn]
+        src, opnames, infos = unit_source(tn, specs, treiber=False)
     binary, opidx, objidx, stats = build_binary(chibicc, include, wd, {tn: (src, opnames, infos)})
     return binary, opidx, objidx, src
 
 
 def sig_of(prog, dev):
-    return "C16|%s|%s|%s" % (family(prog["op"]) + ("+" + family(prog["partner"]) if prog["partner"] else ""),
-                             prog["form"], dev)
+    """C16|<op family>[/float][+<partner family>]|<lvalue form>[;<operand positions filled with a call or a nested
+    atomic operation, e.g. D or A+E+D>]|<deviation class>.  The operand kinds are in the description and the artefact."""
+    flt = "/float" if TINFO.get(prog.get("type"), (0, 0, 0, 0, ""))[4] == "flt" else ""
+    pos = "+".join(q for q in POSITIONS if q in ok_parse(prog.get("ok") or ""))
+    return "C16|%s|%s|%s" % (family(prog["op"]) + flt + ("+" + family(prog["partner"]) if prog["partner"] else ""),
+                             prog["form"] + (";" + pos if pos else ""), dev)
 
 
 def replay_main(path):
@@ -1129,7 +1530,7 @@ def replay_main(path):
             print("body does not compile any more:", e)
             return 1 if case["deviation"] == "rejected-by-compiler" else 0
         st, out, err = _run_batch((binary, [program_line(prog, opidx, objidx)], 600))
-        if st != 0:
+        if st != 0 and not (st == 4 and "\nCRASHED " in out):
             print("explorer status", st, out[-500:], err[-500:])
             return 0
         res = parse_output(out).get(prog["id"])
@@ -1153,8 +1554,9 @@ def replay_main(path):
 def describe(prog, dev, h):
     ops = "; ".join("T%d: " % t + ", ".join("%s(arg=%d%s)" % (o["op"], o["arg"], ",exp=%d" % o["exp"] if o["op"].startswith("cas") else "")
                                               for o in th) for t, th in enumerate(prog["threads"]))
-    return ("%s on _Atomic %s via %s, init=%d, %s: %s; schedule %s (%d preemptions) gives history [%s]"
-            % (dev, TINFO[prog["type"]][1], prog["form"], prog["init"], ops, dev, h[3], h[1], h[4]))
+    return ("%s on _Atomic %s via %s%s, init=%d, %s: %s; schedule %s (%d preemptions) gives history [%s]"
+            % (dev, TINFO[prog["type"]][1], prog["form"], " with operands " + prog["ok"] if prog.get("ok") else "",
+               prog["init"], ops, dev, h[3][:400], h[1], h[4]))
 
 
 def timed_out_any(summs):
@@ -1162,30 +1564,31 @@ def timed_out_any(summs):
 
 
 def _try_body(args):
-    chibicc, include, wd, tn, form, op = args
-    if form == "treiber":
+    chibicc, include, wd, tn, spec = args
+    if spec[0] == "treiber":
         name, src = "f_push_p8_treiber", PRELUDE + TREIBER
     else:
-        src, names, _ = unit_source(tn, forms=[form], ops=[op], treiber=False)
+        src, names, _ = unit_source(tn, [spec], treiber=False)
         name = names[0]
     c = os.path.join(wd, "try_%s.c" % name)
     with open(c, "w") as f:
         f.write(src)
     st, o, e = core.run_limited([chibicc, "-cc1", "-I" + include, "-cc1-input", c, "-cc1-output", c + ".s", c], cwd=wd, timeout=60)
-    return name, tn, form, op, st, src, (o + e)[-600:]
+    return name, tn, spec, st, src, (o + e)[-600:]
 
 
-def bisect_rejected(ctx, wd, tn):
+def bisect_rejected(ctx, wd, tn, specs, chunk):
     """A generated unit did not compile: find the single bodies the compiler rejects (each is a finding)."""
-    cases = [(ctx.chibicc, ctx.include, wd, tn, form, op) for form in FORMS + AUTO_FORMS for op in ops_for(tn)]
-    if tn == "p8":
-        cases.append((ctx.chibicc, ctx.include, wd, tn, "treiber", "push"))
+    cases = [(ctx.chibicc, ctx.include, wd, tn, sp) for sp in specs]
+    if tn == "p8" and chunk == 0:
+        cases.append((ctx.chibicc, ctx.include, wd, tn, ("treiber", "push", "", None)))
     bad = set()
-    for name, tn, form, op, st, src, msg in core.pmap(_try_body, cases):
+    for name, tn, spec, st, src, msg in core.pmap(_try_body, cases):
         if st != 0:
             bad.add(name)
+            form, op, okey = spec[0], spec[1], spec[2]
             how = "crash-signal-%d" % -st if isinstance(st, int) and st < 0 else "rejected-by-compiler"
-            ctx.violation("C16|%s|%s|%s" % (family(op), form, how),
+            ctx.violation(sig_of({"op": op, "partner": None, "form": form, "type": tn, "ok": okey}, how),
                           "valid body %s (%s on _Atomic %s via %s) is not compiled: status %s: %s" % (name, op, TINFO[tn][1], form, st, msg.strip()[-300:]),
                           files={"body.c": src},
                           replay='$CHIBICC -cc1 -I"$CHIBICC_DIR/include" -cc1-input body.c -cc1-output body.s body.c >/dev/null 2>&1 && exit 0; exit 1')
@@ -1198,22 +1601,22 @@ def run(ctx):
     tier = ctx.tier
     t_start = time.time()
     # ---- generate and build -----------------------------------------------------------------------
-    units = {}
-    for tn in [t[0] for t in TYPES]:
-        units[tn] = unit_source(tn)
+    allprogs = plan(tier)
+    units, uspecs = make_units(allprogs)
     units["selftest"] = (SELFTEST_ASM, sorted(SELFTEST_EXPECT), [])
     rejected = set()
-    for attempt in range(len(TYPES) + 1):
+    for attempt in range(len(units) + 1):
         try:
             binary, opidx, objidx, rstats = build_binary(ctx.chibicc, ctx.include, wd, units)
             break
         except CompileFailure as e:
             # a valid generated body rejected by the compiler is a finding of its own; continue without it
-            bad = bisect_rejected(ctx, wd, e.tn)
+            utn, usp, uchunk = uspecs[e.tn]
+            bad = bisect_rejected(ctx, wd, utn, usp, uchunk)
             if not bad:
                 raise core.HarnessError("chibicc rejects unit %s but every body alone compiles: %s" % (e.tn, e.msg))
             rejected |= bad
-            units[e.tn] = unit_source(e.tn, exclude=rejected)
+            units[e.tn] = unit_source(utn, usp, exclude=rejected, chunk=uchunk)
     else:
         raise core.HarnessError("generated units keep failing to compile")
     st_stats = rstats.pop("selftest")
@@ -1235,7 +1638,7 @@ def run(ctx):
         raise core.HarnessError("vacuous: no locked read-modify-write instruction in any emitted body")
 
     # ---- explore ----------------------------------------------------------------------------------
-    progs = [p for p in plan(tier) if all(o["fn"] in opidx for th in p["threads"] for o in th) and p["obj"] in objidx]
+    progs = [p for p in allprogs if all(o["fn"] in opidx for th in p["threads"] for o in th) and p["obj"] in objidx]
     progs += selftest_programs()
     t_explore = time.time()
     byid = {p["id"]: p for p in progs}
@@ -1248,7 +1651,8 @@ def run(ctx):
             raise core.HarnessError(sm["error"])
     done = set()
     schedules = decisions = validated = distinct = cas_failed = livelocks = 0
-    by_pre, cfgcount, bad, nbad = {}, {}, {}, {}
+    by_pre, cfgcount, bad, nbad, by_ok = {}, {}, {}, {}, {}
+    crashes = 0
     timed_out = False
     vrep = 0
     for sm in summs:
@@ -1266,6 +1670,11 @@ def run(ctx):
             if sig not in bad or w[3] < bad[sig][3]:
                 bad[sig] = w
         vrep += sm.get("violating_histories_replayed", 0)
+        crashes += sm["crashes"]
+        for k, v in sm["by_ok"].items():
+            c = by_ok.setdefault(k, [0, 0, 0])
+            for j in range(3):
+                c[j] += v[j]
     ctx.cover(explore_s=round(time.time() - t_explore, 1))
     # self-test: the detector must fire on the hand-written broken bodies and stay quiet on the correct ones
     st_seen = {}
@@ -1286,18 +1695,45 @@ def run(ctx):
         raise core.HarnessError("vacuous: no schedule in which a compare-exchange failed")
     if by_pre.get(1, 0) == 0:
         raise core.HarnessError("vacuous: no schedule with a preemption")
+    # operand dimension: every position x kind must have been explored, and for the expected/desired positions of
+    # compare-exchange some schedules must have taken the failure (write-back) path
+    want = ["%s=%s" % (q, k) for q in POSITIONS for k in KINDS] + ["D=const", "plain"]
+    if not timed_out and not bad:
+        for k in want:
+            if by_ok.get(k, [0, 0, 0])[1] == 0:
+                raise core.HarnessError("vacuous: no schedule explored for operand kind %s" % k)
+            if by_ok[k][2] == 0:
+                raise core.HarnessError("vacuous: no failed compare-exchange with operand kind %s" % k)
 
     # A mixed program (two different operations) whose deviation class is already reported for one of its
     # operations alone, on the same lvalue form, has the same root cause: counted, not reported again.
     implied = 0
     for sig in sorted(bad):
         p, dev = bad[sig][0], bad[sig][1]
-        if p["partner"] and any(sig_of({"op": o, "partner": None, "form": p["form"]}, dev) in bad for o in (p["op"], p["partner"])):
+        if p["partner"] and any(sig_of({"op": o, "partner": None, "form": p["form"], "type": p["type"]}, dev) in bad
+                                for o in (p["op"], p["partner"])):
             implied += nbad[sig]
             del bad[sig]
     ctx.cover(violating_schedules_in_mixed_programs_implied_by_single_op_class=implied)
+    # The same for the operand dimension: a deviation class that the operation shows on the same lvalue form with
+    # plain operands, or with only one of the operand positions filled, has the same root cause.
+    implied = 0
+    for sig in sorted(bad):
+        p, dev = bad[sig][0], bad[sig][1]
+        if not p.get("ok"):
+            continue
+        pos = [q for q in POSITIONS if q in ok_parse(p["ok"])]
+        simpler = [""] + (["%s=x" % q for q in pos] if len(pos) > 1 else [])
+        if any(sig_of({"op": p["op"], "partner": None, "form": p["form"], "type": p["type"], "ok": k}, dev) in bad for k in simpler):
+            implied += nbad[sig]
+            del bad[sig]
+    ctx.cover(violating_schedules_with_operand_kinds_implied_by_simpler_operand_class=implied)
+    import fnmatch
     for sig in sorted(bad):
         p, dev, h, _ = bad[sig]
+        if any(pat == sig or fnmatch.fnmatchcase(sig, pat) for pat in getattr(ctx, "findings", [])):
+            ctx.violation(sig, describe(p, dev, h))          # listed finding: counted by ctx, no artefact needed
+            continue
         rwd = os.path.join(wd, "v_%d" % len(os.listdir(wd)))
         try:
             b1, oi, ob, src = single_case_binary(ctx.chibicc, ctx.include, rwd, p)
@@ -1308,7 +1744,8 @@ def run(ctx):
         line = program_line(p, opidx, objidx, h[3])
         o1 = _run_batch((binary, [line], 120))
         o2 = _run_batch((binary, [line], 120))
-        if o1[0] != 0 or o2[0] != 0 or "HARNESS-ERROR" in o1[1]:
+        okst = 4 if h[4].startswith("CRASH-") else 0
+        if o1[0] != okst or o2[0] != okst or "HARNESS-ERROR" in o1[1]:
             raise core.HarnessError("replay of violating schedule failed: %s %s" % (p["id"], o1[1][-300:]))
         r1, r2 = parse_output(o1[1])[p["id"]], parse_output(o2[1])[p["id"]]
         if r1["trace"] != r2["trace"] or r1["hist"][0][2] != h[2] or r1["hist"][0][4] != h[4]:
@@ -1321,7 +1758,17 @@ def run(ctx):
     ctx.cover(states=schedules, transitions=decisions, traces_validated_against_impl=validated,
               programs=len(done), distinct_histories_judged=distinct, livelocked_schedules=livelocks, violating_histories_replayed_identically=vrep,
               schedules_by_preemptions={str(k): by_pre[k] for k in sorted(by_pre)}, schedules_by_config=cfgcount,
-              schedules_with_failed_cas=cas_failed, violating_schedules_by_sig=nbad)
+              schedules_with_failed_cas=cas_failed, violating_schedules_by_sig=nbad,
+              schedules_ending_in_crash_of_code_under_test=crashes,
+              operand_kinds={k: {"programs": v[0], "schedules": v[1], "schedules_with_failed_cas": v[2]} for k, v in sorted(by_ok.items())})
+    ctx.cover(rule="every program = (type in %s) x (lvalue form in %s) x (operation of ops_for(type)) x (operand kinds: "
+                   "each operand position A=object designator, E=expected address, D=value operand filled with one of "
+                   "priv(default), const(D only), %s; combinations per tier in operand_keys()) x (threads x ops in 1x2, 2x1, "
+                   "2x2, 3x1, 3x2) x (value variant), ALL schedules or all schedules within the stated preemption bound; "
+                   "a history is judged against the C11 sequential specification by exhaustive linearization"
+                   % ([t[0] for t in TYPES], FORMS + AUTO_FORMS, KINDS),
+              types=[t[1] for t in TYPES], operand_positions=list(POSITIONS), operand_kinds_alphabet=["priv", "const"] + KINDS,
+              bodies_by_operand_key_count=len({o["ok"] for p in progs for th in p["threads"] for o in th}))
     for sm in summs[:: max(1, len(summs) // 5)][:5]:
         for x in sm["samples"]:
             ctx.sample(x)
@@ -1334,7 +1781,13 @@ def run(ctx):
     ctx.assume("gcc assembles the rewritten output; the assembler, linker and CPU are trusted; operands that mention "
                "%r11 or a segment register are not instrumented (counted in rewriter_unmodelled_operands)")
     ctx.assume("a retry loop that runs for 10^4 scheduling points is a livelock verdict; exploration of that program "
-               "stops at the first such schedule")
+               "stops at the first such schedule; the same holds for a fault (SIGSEGV/SIGBUS/SIGILL/SIGFPE) or a hang "
+               "(3 s of CPU time without scheduling decision) while a body, a helper or an access stub is running")
+    ctx.assume("operand helpers (h1/h5/h7/hf compiled by chibicc in the same unit, vp_clobber in assembly) and the nested "
+               "atomic operations touch only thread-private memory, so they add no scheduling points; nested atomic "
+               "operations on a second SHARED object are not explored")
+    ctx.assume("floating atomics: float and double only (no _Atomic long double); values are exact multiples of 0.25, "
+               "no NaN, infinities, negative zero or rounding")
 
 
 if __name__ == "__main__":
